@@ -132,9 +132,11 @@ def all_cases(tier):
 # configurations with 11..24 attributes, for 65 byte writes and for Execute Write with queued elements on cfg 2.  The quick tier runs
 # them on the small configuration 6 only; the thorough tier keeps them for all configurations (with a 1500 s limit).
 def heavy(c):
+    if c['OPC'] in (0x08, 0x0E) and c['LEN'] in MAIN[c['OPC']] + [7, 9, 11]:
+        return True                                       # cfg 6: Read Multiple 270..355 s / 4 GB per case, Read By Type more
     if c['CFG'] == 6:
         return False
-    if c['OPC'] in (0x04, 0x08, 0x0E) and c['LEN'] in MAIN[c['OPC']] + [7]:
+    if c['OPC'] == 0x04 and c['LEN'] == 5:
         return True
     if c['CFG'] == 2 and (c['LEN'] > 33 or (c['OPC'] == 0x18 and c['NQ'] > 0) or c['NQ'] > 1):
         return True
@@ -144,11 +146,9 @@ def heavy(c):
 def quick_small():
     cs = []
     for opc in HANDLED:
-        for l in sorted(set(BOUNDARY[opc])):
-            if opc == 0x0E and l > 7:
-                continue
+        for l in sorted(set(QUICK0[opc] + MAIN[opc])):
             cs.append(case(6, opc, l))
-    cs += [case(6, 0x08, 7, cmtu=0), case(6, 0x0A, 3, outsz=40), case(6, 0x08, 7, outsz=40), case(6, 0x25, 3, cmdsym=1)]
+    cs += [case(6, 0x0A, 3, outsz=40), case(6, 0x04, 5, outsz=40), case(6, 0x25, 3, cmdsym=1)]
     return cs
 
 
@@ -187,6 +187,6 @@ PROPERTY = Property(
                 'out_size <= min(buffer, negotiated MTU), the response opcode discipline of the statement (request -> opcode+1 or 5 byte Error Response naming it; commands, '
                 'confirmation, notification/indication and Error Response -> nothing), the ATT layout of positive responses, and the invariants afterwards, so the result '
                 'extends to request histories of any length by induction',
-    outside=['server configurations other than the six listed', 'quick tier: accepted-length Find Information / Read By Type / Read Multiple Requests, 65 byte writes and Execute Write with queued elements only on the small configuration 6 (no verdict within the time limit on the larger ones; kept in the thorough tier)', 'Read Multiple Requests with more than 5 handles', 'PDUs longer than 65 bytes',
+    outside=['server configurations other than the six listed', 'quick tier: accepted-length Read By Type and Read Multiple Requests are not run at all (cfg 6: 270..355 s and 4 GB per Read Multiple case, Read By Type more; cfg 0: no verdict in 1500 s), accepted-length Find Information only on the small configuration 6, no 65 byte writes and no Execute Write with queued elements on cfg 2 (no verdict in 600 s on the loaded machine); all of these are kept in the thorough tier with a 1500 s limit', 'Read Multiple Requests with more than 5 handles', 'PDUs longer than 65 bytes',
              'include declarations / secondary services and encryption requirements (C03, C05)', 'undefined and response opcodes: silence and an Error Response are both accepted'],
 )
